@@ -295,6 +295,10 @@ def run(ctx):
     k = 0
     for rep in range(reps):
         for sh in shapes:
+            # the wide and the two-type shapes are expensive to compile (23 derives over up to 13 fields): every
+            # round at the quick tier (3 rounds), a fraction of the 40 thorough rounds
+            if rep >= 3 and ((sh.n >= 6 and rep % 8) or (sh.hetero and rep % 2)):
+                continue
             cases.append(struct_case("s%d" % k, sh, rng, maxlen=ctx.pick(3, 6)))
             k += 1
     for i in range(ctx.pick(160, 2400)):
